@@ -164,13 +164,19 @@ def stress_module(ch):
         m.funcs.append(Func(t0, [], body + [('local.get', 0)]))
         m.exports.append((b'bt', 'func', 0))
     elif k == 4:
-        n = ch.pick((500, 2000))
+        # operand stacks of thousands to tens of thousands of entries (growth steps of the translator's per-file scratch stacks),
+        # with further functions around it so that the scratch state is reused afterwards
+        n = ch.pick((500, 2000, 2000, 20000, 70000))
         body = []
         for i in range(n):
-            body.append(('i32.const', i))
+            body.append(('i32.const', i & 0x3f))
         body += [('i32.add',)] * (n - 1)
+        for j in range(ch.below(4)):
+            m.funcs.append(Func(t0, [], [('local.get', 0), ('i32.const', j), ('i32.xor',)]))
         m.funcs.append(Func(T((), (I32,)), [], body))
-        m.exports.append((b'stack', 'func', 0))
+        m.exports.append((b'stack', 'func', len(m.funcs) - 1))
+        for j in range(1 + ch.below(6)):
+            m.funcs.append(Func(t0, [I64], [('local.get', 0), ('i32.const', 100 + j), ('i32.mul',)]))
     elif k == 5:
         m.memory = (1, None)
         n = ch.pick((200, 1000))
